@@ -32,8 +32,8 @@ RULE = ("case = (R, P, variant, rmin, pmin, block of failure subsets); non-trivi
 ASSUMPTIONS = ["NaN rules apply to every evaluator call of a run (same failure pattern at every point)"]
 EXHAUSTIVE = {"quick": True, "thorough": True}
 BOUNDS = {"quick": {"exhaustive_R_P": [3, 2]}, "thorough": {"exhaustive_R_P": [3, 3]}}
-REQUIRED = {"quick": {"flags_checked": 8000, "gate_absent_checked": 1500, "grad_entries_compared": 3000, "differential_compared": 300, "garbage_compared": 300, "exit_code_checked": 94, "history_calls_judged": 500, "infinite_value_cases_judged": 90, "rows_with_both_infinities": 100, "__nontrivial__": 300},
-            "thorough": {"flags_checked": 400000, "gate_absent_checked": 80000, "grad_entries_compared": 100000, "differential_compared": 8000, "garbage_compared": 8000, "exit_code_checked": 1906, "history_calls_judged": 12000, "infinite_value_cases_judged": 1800, "rows_with_both_infinities": 2000, "__nontrivial__": 3000}}
+REQUIRED = {"quick": {"flags_checked": 8000, "gate_absent_checked": 1500, "grad_entries_compared": 3000, "differential_compared": 300, "garbage_compared": 300, "exit_code_checked": 94, "history_calls_judged": 500, "sampled_cases_with_default_thresholds.more_than_five_perturbations": 8, "infinite_value_cases_judged": 90, "rows_with_both_infinities": 100, "__nontrivial__": 300},
+            "thorough": {"flags_checked": 400000, "gate_absent_checked": 80000, "grad_entries_compared": 100000, "differential_compared": 8000, "garbage_compared": 8000, "exit_code_checked": 1906, "history_calls_judged": 12000, "sampled_cases_with_default_thresholds.more_than_five_perturbations": 200, "infinite_value_cases_judged": 1800, "rows_with_both_infinities": 2000, "__nontrivial__": 3000}}
 
 VARIANTS = ["mean", "stddev", "mixed_con", "filter_cvar", "filter_sort", "merged", "zero_weight", "stddev_equal"]
 
@@ -43,7 +43,7 @@ def _base_spec(R, P, variant, rng):
     n_obj = 2 if variant in ("stddev", "stddev_equal", "filter_cvar") else 1
     n_con = 1 if variant in ("mixed_con", "filter_sort") else 0
     F = n_obj + n_con
-    design = np.array([[1.0, 0.0], [0.0, 1.0], [1.0, 1.0], [-1.0, 0.5], [0.5, -1.0], [1.0, -1.0]])[:P]
+    design = np.array([[1.0, 0.0], [0.0, 1.0], [1.0, 1.0], [-1.0, 0.5], [0.5, -1.0], [1.0, -1.0], [0.5, 1.0], [-1.0, -1.0]])[:P]
     spec = {"V": V, "R": R, "P": P, "rweights": [float(1 + (r % 3)) for r in range(R)], "oweights": [1.0] if n_obj == 1 else [0.75, 0.25],
             "n_con": n_con, "x0": [0.3, -0.2], "magnitudes": [0.01], "merge": variant == "merged", "seed": 7,
             "samplers": [{"method": "verif/design", "options": {"samples": design.tolist()}}], "_shared": True, "_identical": R == 1,
@@ -185,7 +185,7 @@ def _reduced(spec, keep):
     e = spec["ensemble"]
     s["ensemble"] = {"kind": "affine", "a": [e["a"][k] for k in keep], "b": [e["b"][k] for k in keep]}
     s["nan"] = [dict(r, r=keep.index(r["r"])) for r in spec["nan"] if r["r"] in keep]
-    s["rmin"] = min(spec["rmin"], len(keep))
+    s["rmin"] = min(ens.rmin_of(spec), len(keep))
     s["_identical"] = len(keep) == 1
     return s
 
@@ -217,12 +217,12 @@ def _judge_subset(obs, spec, pm, x, tag):
         n_obj = len(spec["oweights"])
         objs, cons = fvals[:, :n_obj], (fvals[:, n_obj:] if spec["n_con"] else None)
         failed_f = np.isnan(fvals).any(axis=1)
-        if int((~failed_f).sum()) < cfg.realizations.realization_min_success:
+        if int((~failed_f).sum()) < ens.rmin_of(spec):
             obs.count("gate_absent_checked")
         j1 = expected_functions(obs, spec, cfg, fres, objs, cons)
         psucc = ~np.isnan(pvals).any(axis=2)
-        failed_g = failed_f | (psucc.sum(axis=1) < cfg.gradient.perturbation_min_success)
-        if int((~failed_g).sum()) < cfg.realizations.realization_min_success:
+        failed_g = failed_f | (psucc.sum(axis=1) < ens.pmin_of(spec))
+        if int((~failed_g).sum()) < ens.rmin_of(spec):
             obs.count("gate_absent_checked")
         j2 = judge_gradient(obs, spec, cfg, gres, fvals, pvals, path + ":" + tag, judge_merged_values=False)
         judged = judged or j1 or j2
@@ -332,8 +332,8 @@ def _exit_case(case, obs):
             failed_f[rule["r"]] = True
         else:
             psucc[rule["r"], rule["p"]] = False
-    failed_g = failed_f | (psucc.sum(axis=1) < cfg.gradient.perturbation_min_success)
-    rmin = cfg.realizations.realization_min_success
+    failed_g = failed_f | (psucc.sum(axis=1) < ens.pmin_of(spec))
+    rmin = ens.rmin_of(spec)
     absent = (~failed_f).sum() < rmin or (~failed_g).sum() < rmin
     allfail = failed_f.all() or failed_g.all()
     w = np.asarray(cfg.realizations.weights)
@@ -420,7 +420,7 @@ def _inf_case(case, obs):
                 failed_f[r] = True
             else:
                 psucc[r, p] = False
-    failed_g = failed_f | (psucc.sum(axis=1) < cfg.gradient.perturbation_min_success)
+    failed_g = failed_f | (psucc.sum(axis=1) < ens.pmin_of(spec))
     obs.count("infinite_value_cases_judged")
     obs.nontrivial("inf", case["i"])
     if not np.array_equal(np.asarray(fres.realizations.failed_realizations), failed_f):
@@ -429,7 +429,7 @@ def _inf_case(case, obs):
         return
     if not np.array_equal(np.asarray(gres.realizations.failed_realizations), failed_g):
         obs.violation("failed_flags_gradient_with_infinite_values", reported=gres.realizations.failed_realizations, expected=failed_g, rows=[str(k) for k in kinds],
-                      realizations=c.realizations, perturbations=perts, pmin=int(cfg.gradient.perturbation_min_success))
+                      realizations=c.realizations, perturbations=perts, pmin=ens.pmin_of(spec))
 
 
 def run_case(case, obs):
@@ -440,10 +440,18 @@ def run_case(case, obs):
     pm = ens.plugin_manager()
     if case["mode"] == "sampled":
         rng = rng_for(obs.seed, "c03s", case["i"])
-        R, P = int(rng.integers(2, 7)), int(rng.integers(2, 7))
+        R, P = int(rng.integers(2, 7)), int(rng.integers(2, 9))
         variant = VARIANTS[int(rng.integers(len(VARIANTS)))]
         spec = _base_spec(R, P, variant, rng)
         spec["rmin"], spec["pmin"] = int(rng.integers(0, R + 1)), int(rng.integers(1, P + 1))
+        if rng.random() < 0.3:
+            # thresholds left to their documented defaults: every perturbation (every realization) has to succeed
+            spec["pmin"] = None
+            if rng.random() < 0.3:
+                spec["rmin"] = None
+            obs.count("sampled_cases_with_default_thresholds")
+            if P > 5:
+                obs.count("sampled_cases_with_default_thresholds.more_than_five_perturbations")
         F = len(spec["oweights"]) + spec["n_con"]
         subsets = []
         for _ in range(6):
